@@ -235,7 +235,7 @@ CHECKS = {
               "Oracle: an Open that succeeds on a regular entry reads exactly the entry's bytes (also after Done); Done and every Open return within the watchdog once the stream ended, failed or was cancelled; a fault-free stream yields no error. non-trivial = an Open issued while something was parked; every cuts/destfaults/hooked/stress case"),
         assumptions=["'eventually returns' is observed as 'returned within the watchdog'", "schedules are owned at the archive reader, at destination calls and at three verifPoint markers inside tar; everything else is free-running"],
         legs=[
-            dict(name="stream", run="^TestStream$", quick=250, thorough=3000, shards=6),
+            dict(name="stream", run="^TestStream$", quick=250, thorough=3000, shards=6, quick_shards=4),
             dict(name="cuts", run="^TestCuts$", quick=25, thorough=300, shards=6),
             dict(name="destfaults", run="^TestDestFaults$", quick=40, thorough=500, shards=4),
             dict(name="hooked", run="^TestHooked$", quick=200, thorough=2500, shards=2),
